@@ -252,6 +252,12 @@ def run(ctx):
         if p['ret'] not in g['rets']:
             g['rets'].append(p['ret'])
     glist = list(groups.values())
+    # non-vacuity of the generated space: every decoder state is a stopping place, every documented code is predicted
+    seqs = set(g['seq'] for g in glist); codes = set(r for g in glist for r in g['rets'])
+    need_seqs = {"STREAM_HEADER", "BLOCK_INIT", "BLOCK_CODE", "BLOCK_PADDING", "BLOCK_CHECK", "INDEX", "STREAM_FOOTER", "STREAM_PADDING"}
+    if not need_seqs <= seqs or not {"STREAM_END", "FORMAT_ERROR", "OPTIONS_ERROR", "DATA_ERROR"} <= codes:
+        raise MachineryError("generated files do not stop in every decoder state / with every code: %s %s" % (sorted(seqs), sorted(codes)))
+    ctx.extra["model_stop_states"] = sorted(seqs); ctx.extra["model_codes"] = sorted(codes)
     def xz_args(k, shards):
         part, base = slices(glist, k, shards)
         return dict(groups=part, base=base)
